@@ -109,6 +109,21 @@ theorem host_literal_record_duplicates_host_record :
     (0, 0, Handle.chain 0) ∈ reverse cxHostDup ⟨0, 2⟩ 0 ∧ (0, 0, Handle.chain 0) ∈ reverse cxHostDup ⟨100, 1⟩ 0 := by
   decide
 
+/-- **a parameter update while orders are open** (`MsgUpdateParams`: grace period, sell-order
+    duration, minimum offer, bid increment): accepted only inside the bounds of `validatePriceParams` /
+    `validateMiscParams`; no record, order, bid, offer or balance changes — an open sell order keeps the
+    expiry it was placed with, an open offer below the new minimum stays escrowed and refundable.
+    (`escrow_inv`, `reachable_inv`, `owner_unique_authorised` of Props/C17 quantify over histories
+    that contain such updates; the grace period and the bid increment they mention are the values in
+    force when the respective message is processed.) -/
+theorem params_change_keeps_orders {s s' : State} {g d mo bi : Nat} (h : exec s (.setParams g d mo bi) = .ok s') :
+    (minPriceValue ≤ mo ∧ bi ≤ 10 ∧ 30 * 86400 ≤ g ∧ 1 ≤ d ∧ d ≤ 7 * 86400) ∧
+    s'.p = { s.p with grace := g, soDur := d, minOffer := mo, bidInc := bi } ∧
+    s'.ns = s.ns ∧ s'.nameSO = s.nameSO ∧ s'.aliasSO = s.aliasSO ∧ s'.bos = s.bos ∧ s'.al = s.al ∧
+    s'.bal = s.bal ∧ s'.modBal = s.modBal ∧ s'.now = s.now ∧ escrowed s' = escrowed s := by
+  obtain ⟨rfl, h1, h2, h3, h4, h5⟩ := setParams_ok h
+  exact ⟨⟨h1, h2, h3, h4, h5⟩, rfl, rfl, rfl, rfl, rfl, rfl, rfl, rfl, rfl, rfl⟩
+
 /-! ## non-vacuity -/
 
 /-- a migration onto a chain-id other than the host's keeps forward and reverse resolution in
@@ -140,5 +155,16 @@ example :
     errOf (exec s0 (.updateAliases [] [(102, 1002)])) = some .notfound ∧
     errOf (exec s0 (.updateAliases [(102, 1000)] [])) = some .invalid ∧
     errOf (exec s0 (.updateAliases [] [])) = some .invalid := by decide
+
+/-- a0 lists n1 (order lasts 10 s), a1 bids 100; the params change to +10 % increment, orders of one
+    hour, minimum offer 2e18: a bid of 109 is refused, 110 accepted (a1 refunded), the order still ends
+    at the expiry it was placed with -/
+example :
+    let s := run (State.start cxParams 1000)
+      [.fund 0 1000, .fund 1 1000, .fund 2 1000, .register 0 1 2 5 0, .sellName 0 1 2 0, .buyName 1 1 100,
+       .setParams (30 * 86400) 3600 (2 * 10 ^ 18) 10]
+    s.p.bidInc = 10 ∧ (AMap.get s.nameSO 1).map (·.expireAt) = some 1010 ∧
+    balOf (step s (.buyName 2 1 109)) 2 = 1000 ∧ balOf (step s (.buyName 2 1 110)) 2 = 890 ∧
+    balOf (step s (.buyName 2 1 110)) 1 = 1000 ∧ (step s (.buyName 2 1 110)).modBal = 110 := by decide
 
 end DymVerif.C17
